@@ -56,6 +56,8 @@ class MapSpec:
             del self.m[k]
     def imp(self, entries):
         for k, e in entries.items():
+            if segs(k)[0] == "$SYS":
+                continue          # an import does not reach $SYS (Spec/MapSpec.v write_effect OImport: strip_sys; repair of F29)
             if e[0] == "P":
                 v = e[1]
                 if v is None:
